@@ -15,6 +15,11 @@ ASSUMPTIONS = c02.ASSUMPTIONS + ["a repeated identical unitary alignment inside 
 
 
 def check(case):
+    with oracle.scale_floor(case["dissim"]["delta"]):
+        return _check(case)
+
+
+def _check(case):
     info = c02.check(case, cover=True)
     cont, spec, mode = case["continuum"], case["dissim"], case.get("backend", "cbc")
     c = oracle.build_continuum(cont)
@@ -33,7 +38,7 @@ def check(case):
     preds.check_reported_disorders(best2, preds.check_partition(best2, per0, "best[second call]"), spec, per0, "best[second call]")
     preds.check_reported_disorders(soft2, preds.check_cover(soft2, per0, "soft[second call]"), spec, per0, "soft[second call]")
     soft_d, best_d = info["lib"], float(best.disorder)
-    if soft_d > best_d + oracle.REL_TOL * max(1.0, abs(best_d)):
+    if soft_d > best_d + oracle.REL_TOL * max(float(spec["delta"]), abs(best_d)):
         raise Violation("soft-exceeds-best", f"soft {soft_d} > best {best_d}")
     per = oracle.per_annotator(cont)
     cnt = oracle.occurrence_counts(info["slots"], per.keys())
@@ -76,7 +81,7 @@ def cases(draw):
         cs["backend"] = draw(st.sampled_from(["cbc", "cbc", "glpk"]))
         cs["xcheck"] = 0
         return cs
-    cs = draw(gen.continuum_and_spec(min_ann=2, max_ann=5, budget=1300, max_per=9, unlabelled_ratio=0.1))
+    cs = draw(gen.continuum_and_spec(min_ann=2, max_ann=5, budget=1300, max_per=9, unlabelled_ratio=0.1, extreme=True))
     cs["backend"] = draw(st.sampled_from(["cbc", "cbc", "glpk"]))
     cs["xcheck"] = draw(st.sampled_from([0, 0, 0, 1]))
     return cs
